@@ -473,19 +473,21 @@ theorem wf_len_concat {a : A} {sa : List Nat} {k : Nat} (hwf : a.WF) (hs : a.sha
     a.elems.length = sa.prod * k := by
   rw [hwf, hs]; simp
 
-theorem innerSplit_eq (a : A) (sa : List Nat) (k : Nat) (ha : a.WF) (hs : a.shape = sa ++ [k]) (hp : 0 < sa.prod) :
+theorem innerSplit_eq (a : A) (sa : List Nat) (k : Nat) (ha : a.WF) (hs : a.shape = sa ++ [k]) (hp : 0 < sa.prod)
+    (hk : 0 < k) :
     innerSplit a = .ok ((List.range sa.prod).map (fun u => Arr.flat (row a k u))) := by
   have hl := wf_len_concat ha hs
+  have hpos : sa.prod * k ≠ 0 := Nat.ne_of_gt (Nat.mul_pos hp hk)
   unfold innerSplit removeAt
   simp only [Arr.ndim, Arr.len, hs, List.length_append, List.length_cons, List.length_nil, Nat.zero_add,
     Nat.add_sub_cancel, Nat.lt_succ_self, if_true, Res.bind_ok, eraseIdx_concat_length, hl]
-  rw [if_neg (by omega), Nat.mul_div_cancel_left k hp]
+  rw [if_neg (by omega), if_neg hpos, Nat.mul_div_cancel_left k hp]
   simp [pieces, row]
 
-theorem inner11_rows (ra rb : List Int) (h : ra.length = rb.length) :
+theorem inner11_rows (ra rb : List Int) (h : ra.length = rb.length) (h0 : rb.length ≠ 0) :
     inner11 (Arr.flat ra) (Arr.flat rb) = .ok ⟨[sumProd ra rb], [1]⟩ := by
   unfold inner11 shapesAlign
-  simp [Arr.flat, h]
+  simp [Arr.flat, Arr.len, h, h0]
 
 theorem length_row (x : A) (k u : Nat) (h : (u + 1) * k ≤ x.elems.length) : (row x k u).length = k :=
   length_piece k x.elems u h
@@ -495,12 +497,12 @@ def inn (a b : A) (sa sb : List Nat) (k : Nat) : A :=
   ⟨(List.range sa.prod).flatMap (fun u => (List.range sb.prod).map (fun v => sumProd (row a k u) (row b k v))), sa ++ sb⟩
 
 theorem innerNd_eq (a b : A) (sa sb : List Nat) (k : Nat) (ha : a.WF) (hb : b.WF)
-    (hsa : a.shape = sa ++ [k]) (hsb : b.shape = sb ++ [k]) (hpa : 0 < sa.prod) (hpb : 0 < sb.prod) :
+    (hsa : a.shape = sa ++ [k]) (hsb : b.shape = sb ++ [k]) (hpa : 0 < sa.prod) (hpb : 0 < sb.prod) (hk : 0 < k) :
     innerNd a b = .ok (inn a b sa sb k) := by
   have hla := wf_len_concat ha hsa
   have hlb := wf_len_concat hb hsb
   unfold innerNd
-  rw [innerSplit_eq a sa k ha hsa hpa, innerSplit_eq b sb k hb hsb hpb]
+  rw [innerSplit_eq a sa k ha hsa hpa hk, innerSplit_eq b sb k hb hsb hpb hk]
   simp only [removeAt, Arr.ndim, hsa, hsb, List.length_append, List.length_cons, List.length_nil, Nat.zero_add,
     Nat.add_sub_cancel, Nat.lt_succ_self, if_true, Res.bind_ok, eraseIdx_concat_length, List.flatMap_map, List.map_map]
   rw [collectRes_flatMap _ _ _ (fun u v => (⟨[sumProd (row a k u) (row b k v)], [1]⟩ : A))]
@@ -510,9 +512,10 @@ theorem innerNd_eq (a b : A) (sa sb : List Nat) (k : Nat) (ha : a.WF) (hb : b.WF
     have hu' : u < sa.prod := by simpa using hu
     have hv' : v < sb.prod := by simpa using hv
     simp only [Function.comp]
+    have hlv := length_row b k v (by rw [hlb]; exact Nat.mul_le_mul_right k hv')
     apply inner11_rows
-    rw [length_row a k u (by rw [hla]; exact Nat.mul_le_mul_right k hu'),
-      length_row b k v (by rw [hlb]; exact Nat.mul_le_mul_right k hv')]
+    · rw [length_row a k u (by rw [hla]; exact Nat.mul_le_mul_right k hu'), hlv]
+    · rw [hlv]; omega
 
 theorem inn_get (a b : A) (sa sb : List Nat) (k : Nat) (ha : a.WF) (hb : b.WF)
     (hsa : a.shape = sa ++ [k]) (hsb : b.shape = sb ++ [k]) (ca cb : List Nat)
@@ -640,15 +643,16 @@ theorem getColumns_eq (b : A) (k p : Nat) (hsb : b.shape = [k, p]) :
   unfold getColumns
   simp [hsb, Res.idx, col]
 
-theorem vdot_flat (ra : List Int) (b : A) (h : ra.length = b.elems.length) :
+theorem vdot_flat (ra : List Int) (b : A) (h : ra.length = b.elems.length) (h0 : b.elems.length ≠ 0) :
     vdot (Arr.flat ra) b = .ok ⟨[sumProd ra b.elems], [1]⟩ := by
-  unfold vdot; simp [Arr.flat, Arr.len, h]
+  unfold vdot; simp [Arr.flat, Arr.len, h, h0]
 
-theorem vdot_flat_right (a : A) (rb : List Int) (h : a.elems.length = rb.length) :
+theorem vdot_flat_right (a : A) (rb : List Int) (h : a.elems.length = rb.length) (h0 : rb.length ≠ 0) :
     vdot a (Arr.flat rb) = .ok ⟨[sumProd a.elems rb], [1]⟩ := by
-  unfold vdot; simp [Arr.flat, Arr.len, h]
+  unfold vdot; simp [Arr.flat, Arr.len, h, h0]
 
-theorem dot1d_matvec (a b : A) (n k : Nat) (ha : a.WF) (hb : b.WF) (hsa : a.shape = [n, k]) (hsb : b.shape = [k]) :
+theorem dot1d_matvec (a b : A) (n k : Nat) (ha : a.WF) (hb : b.WF) (hsa : a.shape = [n, k]) (hsb : b.shape = [k])
+    (hk : 0 < k) :
     dot1d a b = .ok (Arr.flat ((List.range n).map (fun i => sumProd (row a k i) b.elems))) := by
   have hla := wf_len2 ha hsa
   have hlb : b.elems.length = k := by rw [hb, hsb]; simp
@@ -661,9 +665,10 @@ theorem dot1d_matvec (a b : A) (n k : Nat) (ha : a.WF) (hb : b.WF) (hsa : a.shap
   · intro i hi
     have hi' : i < n := by simpa using hi
     apply vdot_flat
-    rw [length_row a k i (by rw [hla]; exact Nat.mul_le_mul_right k hi'), hlb]
+    · rw [length_row a k i (by rw [hla]; exact Nat.mul_le_mul_right k hi'), hlb]
+    · rw [hlb]; omega
 
-theorem dot1d_vecmat (a b : A) (k p : Nat) (ha : a.WF) (hsa : a.shape = [k]) (hsb : b.shape = [k, p]) :
+theorem dot1d_vecmat (a b : A) (k p : Nat) (ha : a.WF) (hsa : a.shape = [k]) (hsb : b.shape = [k, p]) (hk : 0 < k) :
     dot1d a b = .ok (Arr.flat ((List.range p).map (fun j => sumProd a.elems (col b k p j)))) := by
   have hla : a.elems.length = k := by rw [ha, hsa]; simp
   unfold dot1d
@@ -675,7 +680,8 @@ theorem dot1d_vecmat (a b : A) (k p : Nat) (ha : a.WF) (hsa : a.shape = [k]) (hs
   · intro j _
     simp only [Function.comp]
     apply vdot_flat_right
-    simp [col, hla]
+    · simp [col, hla]
+    · simp [col]; omega
 
 theorem getD_col (b : A) (k p j i : Nat) (hi : i < k) : (col b k p j).getD i 0 = b.elems.getD (i * p + j) 0 := by
   simp [col, List.getD_eq_getElem?_getD, hi]
@@ -693,7 +699,9 @@ theorem flat_wf (c : List Int) : (Arr.flat c).WF := by simp [Arr.flat, Arr.WF]
 theorem vdot_wf {a b r : A} (h : vdot a b = .ok r) : r.WF := by
   unfold vdot at h
   split at h
-  · cases h; simp [Arr.WF]
+  · split at h
+    · cases h
+    · cases h; simp [Arr.WF]
   · cases h
 
 theorem matmul1dNd_wf (fuel : Nat) (a b r : A) (h : matmul1dNd fuel a b = .ok r) : r.WF := by
@@ -744,12 +752,15 @@ theorem prod_replicate_one (n : Nat) : (List.replicate n 1).prod = 1 := by
 theorem multiplyScalar_wf (a b r : A) (ha : a.WF) (hb : b.WF) (h : multiplyScalar a b = .ok r) : r.WF := by
   unfold multiplyScalar at h
   split at h
-  · rename_i x hx
+  · cases h
+  · cases h
+  · rename_i x hx _
     cases h
     have hs : a.shape = List.replicate a.ndim 1 := ones_of_prod_eq_one a.shape (by rw [← ha, hx]; rfl)
     simp only [Arr.WF, List.length_map]
     rw [hs, bshape_ones_left', List.prod_append, prod_replicate_one, Nat.one_mul, ← hb]
-  · rename_i y hy _
+  · have hy : ∃ y, b.elems = [y] := ⟨_, by assumption⟩
+    obtain ⟨y, hy⟩ := hy
     cases h
     have hs : b.shape = List.replicate b.ndim 1 := ones_of_prod_eq_one b.shape (by rw [← hb, hy]; rfl)
     simp only [Arr.WF, List.length_map]
